@@ -3,19 +3,19 @@ verus! {
 //@include prelude/path.rs
 //@include prelude/types.rs
 //@include prelude/dashmap.rs
+//@include prelude/hashset.rs
 
-pub struct FixtureDatabase {
-    pub usages: DashMap<PathBuf, Vec<FixtureUsage>>,
-    pub usage_by_fixture: DashMap<String, Vec<(PathBuf, FixtureUsage)>>,
-}
-
-impl FixtureDatabase {
-/*@ extract src/fixtures/analyzer.rs record_fixture_usage
-@recv mut
-@sig
-    ensures
-        final(self).usages.m().dom() == old(self).usages.m().dom().insert(pv(file_path)),
-@*/
+fn f(names: HashSet<String>) -> (n: usize)
+{
+    let ghost s0 = names.s();
+    let mut n: usize = 0;
+    for x in it: names
+        invariant n <= it.index@, it.seq().len() == s0.len(), forall|i: int| 0 <= i < it.seq().len() ==> s0.contains(#[trigger] it.seq()[i]@),
+    {
+        if n < 1000 { n = n + 1; }
+        assert(s0.contains(x@));
+    }
+    n
 }
 } // verus!
 fn main() {}
